@@ -86,7 +86,7 @@ def main(argv):
             nb += 1
     # cross product provides x requires through PortsCfg (sampled) and through the builder (sampled)
     n = 1500 if tier == 'quick' else 60000
-    bigger = ['p1', 'p2', 'hal', 'hal2', 'zeta', 'Alpha', '_x', 'x9']
+    bigger = ['p1', 'p2', 'hal', 'hal2', 'zeta', 'Alpha', '_x', 'x9', 'pass', 'from', 'with', 'lambda', 'None']   # Python's reserved words are ordinary port names
     for i in range(n):
         if i % 3:
             ps, pm, rs, rm = (rng.choice(sels) for _ in range(4))
@@ -121,6 +121,26 @@ def main(argv):
                 breq['mc'] = pp[0]        # a multi-client port: exposed through ProvidesMultiClient<Port>(id), still Mts<>
             cases.append((breq, req, dec))
             nb += 1
+    # the multi-client port is an exposed provides port like any other: it needs a semantics from the selection (and that MTS)
+    from checks import buildcases as BC
+    mfile = [['ns', ['My'], [['itf', ['IArb'], [['enum', ['Result'], ['Ok', 'No']]],
+                               [['Claim', 'in', ['Result'], []], ['Release', 'in', ['void'], []], ['Done', 'out', ['void'], []]]],
+                              ['comp', ['Desk'], [['ctrl', ['IArb'], 'provides', False], ['excl', ['IArb'], 'provides', False], ['dev', ['IArb'], 'requires', False]]]]]]
+    mcases = []
+    for psel in ([['w', 'none'], ['s', ['ctrl']]], [['s', ['ctrl']], ['w', 'none']], [['w', 'none'], ['s', ['ctrl', 'excl']]], [['w', 'none'], ['s', ['excl']]],
+                 [['s', ['ctrl']], ['s', ['excl']]], [['w', 'none'], ['w', 'all']], [['w', 'remaining'], ['s', ['ctrl']]], [['s', ['excl']], ['w', 'remaining']],
+                 [['w', 'none'], ['w', 'remaining']], [['s', ['ctrl', 'excl']], ['w', 'none']]):
+        for mcp in ('excl', 'ctrl'):
+            mcases.append({'file': mfile, 'cfg': {'file': 'Desk.dzn', 'enc': ['My', 'Desk'], 'ports': {'p': psel, 'r': [['w', 'all'], ['w', 'none']], 'mc': [mcp, 'Claim', ['Ok'], 'Release']}}})
+    mio, mmo = BC.run_builds(mcases)
+    nmc = 0
+    for c, i, m in zip(mcases, mio, mmo):
+        rep.case({'multiclient_selection': c['cfg']['ports']}, shape='multi-client port selection/' + m[0])
+        if (i[0] != m[0] or (i[0] != 'ok' and i[1] != m[1])) and nmc < 3:
+            nmc += 1
+            rep.violation(f'selection for a component with provides ports ctrl, excl and multi-client port {c["cfg"]["ports"]["mc"][0]}: provides {c["cfg"]["ports"]["p"]} '
+                          f'gives {i[0]} {i[1] if i[0] != "ok" else ""}; required: {m[0]} {m[1] if m[0] != "ok" else ""}',
+                          {'file': mfile, 'configuration': c['cfg'], 'theorems': 'Properties/C03.v, Properties/C13.v (build Ok <-> valid_input)'})
     bad = run_cases(cases, rep, worker='ports_worker', vm_sample=(60 if tier == 'quick' else 400), vm_name='c03')
     for i, r, mv in bad[:5]:
         rep.violation(f'port configuration: implementation differs from the proven model on case {i}: '
